@@ -45,6 +45,18 @@
      on the code as found (finding F4z: the array, not its item, is asked for free symbols):
      proved for data without 0-d arrays and for the repaired transcription, negation `decide`d on
      a witness (`zero_d_array_hides_its_symbols_witness`).
+   * BUBBLES (Model/ParamXSyms.lean: tensor.Bubble carries no data, REPORTS the symbols of the
+     diagram inside by overriding the property `free_symbols` — tensor.py:699-701 — and rebuilds
+     itself around `inside.subs(...)`; cat.Arrow.free_symbols asks every box through the public
+     property): `bubble_free_symbols_spec` — the symbols reported for a diagram with bubbles are
+     exactly those of the parameters of its boxes, the boxes inside bubbles included;
+     `bubble_subs_acts_on_parameters`, `bubble_subs_keeps_shape` (whiskers, declared types and the
+     function of each bubble), `bubble_subs_all_closed`; `bubble_eval_natural` — substitution by
+     any ring homomorphism commutes with evaluation through the bubbles (which apply an integer
+     polynomial entrywise).  A walk over the CACHED attribute `_free_symbols` of the boxes is
+     shown by `decide` to drop the symbols inside bubbles
+     (`cached_attribute_walk_drops_bubble_symbols`).  Bubbles are un-nested and single-wire in the
+     model (nested bubbles, several wires: oracle only).
   What is NOT proved: that sympy's `subs`/`lambdify` ARE ring homomorphisms on sympy
   expressions (sympy's polynomial arithmetic is compared with the model's on every run by the
   streams `psubseval`/`pevalsubs`).  Tensor.subs / CQMap.subs on the evaluated array (findings
@@ -55,6 +67,7 @@ import Proofs.ParamGates
 import Proofs.PolyDiagram
 import Proofs.ParamSeq
 import Proofs.ParamData
+import Proofs.ParamXSyms
 import Mathlib.Data.ZMod.Basic
 
 namespace DV.C14
@@ -367,7 +380,75 @@ theorem subs_then_subs_eval {R S T : Type} [CommRing R] [CommRing S] [CommRing T
       congrFun (congrFun (evalLayers_natural σ hσ _) i) k]
   rfl
 
+/-! ### diagrams with bubbles -/
+
+/-- The free symbols reported for a diagram with bubbles are exactly the symbols occurring in the
+    parameters of its boxes — a bubble has no parameter of its own and reports those of the
+    diagram inside. -/
+theorem bubble_free_symbols_spec {R : Type} (fs : R → List Nat) (ls : List (XLayer R)) (v : Nat) :
+    v ∈ xfreeSymbolsL fs ls ↔ ∃ e ∈ xparams ls, v ∈ fs e :=
+  mem_xfreeSymbolsL fs ls v
+
+/-- `subs` maps the parameters in place, inside the bubbles too. -/
+theorem bubble_subs_acts_on_parameters {R S : Type} (f : R → S) (ls : List (XLayer R)) :
+    xparams (ls.map (XLayer.mapData f)) = (xparams ls).map f :=
+  xparams_mapData f ls
+
+/-- `subs` keeps the whiskers and the declared type of every box and bubble, and the function of
+    every bubble. -/
+theorem bubble_subs_keeps_shape {R S : Type} (f : R → S) (l : XLayer R) :
+    (l.mapData f).left = l.left ∧ (l.mapData f).right = l.right ∧
+    (l.mapData f).box.dom = l.box.dom ∧ (l.mapData f).box.cod = l.box.cod ∧
+    ∀ dom cod func inside, l.box = .bubble dom cod func inside →
+      (l.mapData f).box = .bubble dom cod func (inside.map (PLayer.mapData f)) :=
+  ⟨rfl, rfl, xbox_dom_mapData f l.box, xbox_cod_mapData f l.box,
+   fun _ _ _ _ h => by simp [XLayer.mapData, h, XBox.mapData]⟩
+
+/-- Substituting closed values for every parameter: the diagram reports no free symbol. -/
+theorem bubble_subs_all_closed {R S : Type} (fs : S → List Nat) (f : R → S)
+    (hclosed : ∀ e, fs (f e) = []) (ls : List (XLayer R)) :
+    xfreeSymbolsL fs (ls.map (XLayer.mapData f)) = [] :=
+  xfreeSymbols_mapData_closed fs f hclosed ls
+
+/-- **Substitution commutes with evaluation through bubbles**: a bubble applies an integer
+    polynomial to every entry of the evaluation of its inside, which commutes with every ring
+    homomorphism. -/
+theorem bubble_eval_natural {R S : Type} [CommRing R] [CommRing S] [HasConj R] [HasConj S]
+    (σ : R →+* S) (hconj : ∀ x, σ (HasConj.conj x) = HasConj.conj (σ x))
+    (ls : List (XLayer R)) (hls : ∀ l ∈ ls, l.box.isInput) (i k : Nat) :
+    xevalLayers (fun n : Int => (n : S)) (ls.map (XLayer.mapData σ)) i k
+      = σ (xevalLayers (fun n : Int => (n : R)) ls i k) :=
+  congrFun (congrFun (xevalLayers_natural σ hconj ls hls) i) k
+
+/-- `f >> g.bubble(…)` with `f = [x0, 1, 0, 2]`, `g = [1, x1, x1, 3]`, the bubble squaring. -/
+def xb0 : List (XLayer Poly) :=
+  [ { left := [], right := [],
+      box := .plain { dom := [2], cod := [2], dagger := false, data := [Poly.var 0, 1, 0, Poly.const 2] } },
+    { left := [], right := [],
+      box := .bubble [2] [2] [0, 0, 1]
+        [ { left := [], right := [],
+            box := { dom := [2], cod := [2], dagger := false,
+                     data := [1, Poly.var 1, Poly.var 1, Poly.const 3] } } ] } ]
+
+/-- A walk that unions the attribute `_free_symbols` cached by `Box.__init__` (instead of asking
+    each box through its property, as cat.Arrow.free_symbols does) drops the symbols that occur
+    only inside bubbles. -/
+theorem cached_attribute_walk_drops_bubble_symbols :
+    xfreeSymbolsL Poly.vars xb0 = [0, 1] ∧ xcachedSymbolsL Poly.vars xb0 = [0] := by decide
+
 /-! ### non-vacuity -/
+
+example : (1 : Nat) ∈ xfreeSymbolsL Poly.vars xb0 :=
+  (bubble_free_symbols_spec Poly.vars xb0 1).mpr ⟨Poly.var 1, by decide, by decide⟩
+example : xfreeSymbolsL Poly.vars (xb0.map (XLayer.mapData (fun _ => Poly.const 1))) = [] :=
+  bubble_subs_all_closed Poly.vars _ (fun _ => by decide) xb0
+example : ∀ l ∈ xb0, l.box.isInput := by
+  intro l hl
+  simp only [xb0, List.mem_cons, List.mem_nil_iff, or_false] at hl
+  rcases hl with rfl | rfl <;> trivial
+example : xevalLayers Poly.const xb0 0 1 = Poly.var 0 * (Poly.var 1 * Poly.var 1) + Poly.const 9 := by
+  decide
+
 
 instance : HasConj (ZMod 5) := ⟨id⟩
 
